@@ -8,7 +8,7 @@ Extraction "model.ml"
   Functors.addmod Functors.submod Functors.mulmod_shoup Functors.compute_shoup Functors.muladd_shoup Functors.mulmod64
   ScalarOps.mulmod_gen ScalarOps.muladd_gen ScalarOps.muladd64
   Simd.addmod_vec SimdKernels.lane_add SimdKernels.lane_sub SimdKernels.lane_mulshoup32 SimdKernels.lane_mulshoup16 SimdKernels.lane_muladdshoup16 SimdKernels.lane_bfly Functors.bfly_lazy
-  NTTInst.ntt_fwd NTTInst.ntt_inv NTTInst.ntt_mul NTTInst.nega_spec NTTInst.ntt_fwd1 NTTInst.ntt_inv1
+  NTTInst.ntt_fwd NTTInst.ntt_inv NTTInst.ntt_fwd_s NTTInst.ntt_inv_s NTTInst.ntt_mul NTTInst.nega_spec NTTInst.ntt_fwd1 NTTInst.ntt_inv1
   ExprExec.eval_slice ExprExec.spec_slice ExprExec.any_nzl ExprExec.all_nzl
   CRTExec.poly2mpz_coef CRTExec.mpz2poly_coef CRT.prod
   Setters.set_list
